@@ -1,1 +1,342 @@
-//! C07 harnesses.
+//! C07 — the command ring survives a producer dying mid-write; `unblock` never corrupts it.
+//!
+//! Two glued obligations (same regime and vocabulary as c06.rs: literal layout per arm, symbolic values):
+//!  f. producer side — the real `write` is stopped forever after its k-th shared-memory access (hook crash prefix, every
+//!     k, solver-chosen and case-split), claim placements incl. claims that WRAPPED, optionally followed by a
+//!     surviving producer's complete write: the ring then satisfies the predicate `dead_claim` (asserted field by field
+//!     in `crash_at`): the producer position covers the claim; the claim's length word is 0 (then the whole claim is
+//!     still zero) or -length (then the type word is set) or +length only when type and bytes are in place; a wrap
+//!     padding slot is untouched or a complete padding record, and untouched implies the record part is untouched;
+//!     nothing outside the claim changed; the survivor's record is complete behind the claim.
+//!  g. consumer side — from rings satisfying `dead_claim`, constructed directly (literal indices, symbolic contents):
+//!     `unblock()`, `read`, drain, a fresh `write`, drain.
+use super::c06::*;
+use super::hook;
+use super::util::*;
+use crate::command::control_protocol_events::AeronCommand;
+use crate::concurrent::ring_buffer::ManyToOneRingBuffer;
+
+fn align8(v: i64) -> i64 {
+    (v + 7) / 8 * 8
+}
+
+// ------------------------------------------------------------------------------------------------------------------
+// f.  producer side: crash prefix inside the real write
+// ------------------------------------------------------------------------------------------------------------------
+
+#[derive(Copy, Clone, Default)]
+pub struct CrashSeen {
+    pub before_claim: bool,
+    pub zero_len: bool,
+    pub neg_len: bool,
+    pub committed: bool,
+    pub pad_unwritten: bool,
+    pub pad_written_record_not: bool,
+    pub survivor_ok: bool,
+    pub survivor_refused: bool,
+}
+
+/// Empty zeroed ring at `head`, optional earlier record (`prefill` bytes, -1 = none); producer A writes `la` bytes and
+/// is stopped forever after its k-th access; then (lb >= 0) surviving producer B performs a complete write of `lb` bytes.
+fn crash_at(k: u32, head: i64, prefill: i32, la: i32, lb: i32, seen: &mut CrashSeen) {
+    let m = ring_mem();
+    set_positions(m, head, head, head);
+    let rb = ring();
+    if prefill >= 0 {
+        let _ = produce(&rb, TYPES[0], prefill);
+    }
+    let tail = m.i64_at(TAIL_AT);
+    let mut src_a = Mem::<8>::any();
+    let p: usize = kani::any();
+    kani::assume(p < N);
+    let before = m.byte(p);
+    hook::begin(k, u32::MAX, None, false);
+    let _ = rb.write(CMD_A, src_a.buf(), 0, la);
+    let n = hook::end();
+    let sp = spec_place(head, tail, la as i64);
+    assert!(sp.accept, "C07: harness instance: the dying producer's record fits");
+    let t2 = m.i64_at(TAIL_AT);
+    let in_hcache = p >= HCACHE_AT && p < HCACHE_AT + 8;
+    let in_tail = p >= TAIL_AT && p < TAIL_AT + 8;
+    assert!(m.i64_at(HEAD_AT) == head, "C07: a producer never moves the consumer position");
+    if t2 == tail {
+        assert!(in_hcache || m.byte(p) == before, "C07: a producer that dies before its claim leaves the ring untouched");
+        seen.before_claim = true;
+    } else {
+        assert!(t2 == sp.new_tail, "C07: the producer position covers exactly the dead claim (record + wrap padding)");
+        let lw = m.i32_at(sp.index);
+        let rl = la + 8;
+        assert!(lw == 0 || lw == -rl || lw == rl, "C07: the claim's length word is 0, -length, or +length");
+        let q: usize = kani::any();
+        kani::assume(q >= sp.index && q < sp.index + sp.required as usize);
+        if lw == 0 {
+            assert!(m.byte(q) == 0, "C07: a claim whose length word is still zero is entirely zero");
+            seen.zero_len = true;
+        } else {
+            assert!(m.i32_at(sp.index + 4) == CMD_A as i32, "C07: a non-zero length word comes with the type word");
+            assert!(q < sp.index + 8 + la as usize || m.byte(q) == 0, "C07: alignment slack of the claim stays zero");
+            assert!(q < sp.index + 8 || q >= sp.index + 8 + la as usize || m.byte(q) == 0 || m.byte(q) == src_a.0[q - sp.index - 8],
+                "C07: message bytes inside the claim are either not yet copied or the producer's bytes");
+        }
+        if lw == rl {
+            assert!(record_is(m, sp.index, la, CMD_A as i32, &src_a.0), "C07: the length word turns positive only after type and bytes are in place");
+            seen.committed = true;
+        }
+        if lw == -rl {
+            seen.neg_len = true;
+        }
+        let mut in_pad = false;
+        if sp.padding != 0 {
+            let pw = m.i32_at(sp.tail_index);
+            let pt = m.i32_at(sp.tail_index + 4);
+            assert!((pw == 0 && pt == 0) || (pw == sp.padding as i32 && pt == -1), "C07: the wrap padding slot is untouched or a complete padding record");
+            if pw == 0 {
+                assert!(lw == 0, "C07: nothing of the record exists before the wrap padding record");
+                seen.pad_unwritten = true;
+            } else if lw == 0 {
+                seen.pad_written_record_not = true;
+            }
+            in_pad = p >= sp.tail_index && p < sp.tail_index + 8;
+        }
+        let in_claim = p >= sp.index && p < sp.index + sp.required as usize;
+        assert!(in_claim || in_pad || in_tail || in_hcache || m.byte(p) == before, "C07: a dying producer changes nothing outside its claim");
+    }
+    if lb >= 0 {
+        let mut src_b = Mem::<8>::any();
+        let q: usize = kani::any();
+        kani::assume(q < CAP);
+        let before_q = m.byte(q);
+        let rb_res = rb.write(CMD_B, src_b.buf(), 0, lb);
+        let spb = spec_place(head, t2, lb as i64);
+        assert!(rb_res.is_ok() == spb.accept, "C07: a surviving producer is accepted exactly when its record fits behind the dead claim");
+        if rb_res.is_ok() {
+            assert!(m.i64_at(TAIL_AT) == spb.new_tail, "C07: the survivor's claim follows the dead claim");
+            assert!(placed(m, &spb, lb, CMD_B as i32, &src_b.0), "C07: the survivor's record is complete behind the dead claim");
+            let in_b = q >= spb.index && q < spb.index + 8 + lb as usize;
+            let in_bpad = spb.padding != 0 && q >= spb.tail_index && q < spb.tail_index + 8;
+            assert!(in_b || in_bpad || m.byte(q) == before_q, "C07: the survivor does not touch the dead claim or earlier records");
+            seen.survivor_ok = true;
+        } else {
+            assert!(m.i64_at(TAIL_AT) == t2 && m.byte(q) == before_q, "C07: a refused survivor changes nothing");
+            seen.survivor_refused = true;
+        }
+    }
+}
+
+macro_rules! crash_cover {
+    ($seen:ident, before_claim) => { kani::cover!($seen.before_claim, "[must] producer stopped before its claim CAS took effect"); };
+    ($seen:ident, zero_len) => { kani::cover!($seen.zero_len, "[must] producer stopped after the claim with a zero length word"); };
+    ($seen:ident, neg_len) => { kani::cover!($seen.neg_len, "[must] producer stopped with a negative length word"); };
+    ($seen:ident, committed) => { kani::cover!($seen.committed, "[must] producer ran to completion (crash point beyond the last access)"); };
+    ($seen:ident, pad_unwritten) => { kani::cover!($seen.pad_unwritten, "[must] wrapped claim: stopped before the wrap padding record was written"); };
+    ($seen:ident, pad_written_record_not) => { kani::cover!($seen.pad_written_record_not, "[must] wrapped claim: stopped between padding record and record header"); };
+    ($seen:ident, survivor_ok) => { kani::cover!($seen.survivor_ok, "[must] survivor's write accepted behind the dead claim"); };
+    ($seen:ident, survivor_refused) => { kani::cover!($seen.survivor_refused, "[must] survivor's write refused: the dead claim fills the ring"); };
+}
+
+macro_rules! crash_prefix {
+    ($name:ident, $head:expr, $prefill:expr, $la:expr, $lb:expr, [$($k:expr),+], [$($kind:ident),*]) => {
+        #[kani::proof]
+        fn $name() {
+            let mut seen = CrashSeen::default();
+            let k: u32 = kani::any();
+            split!(k, |c| crash_at(c, $head, $prefill, $la, $lb, &mut seen), $($k),+);
+            $( crash_cover!(seen, $kind); )*
+        }
+    };
+}
+
+// claim [0,16) on an empty ring; survivor of 1 byte behind it.  write = 6 accesses; k = 6: no crash
+// @verif tier=quick fs=801 unwind=4 unwindset=claim:2
+crash_prefix!(c07_crash_plain, B1, -1, 4, 1, [0, 1, 2, 3, 4, 5, 6], [before_claim, zero_len, neg_len, committed, survivor_ok]);
+// WRAPPED claim from index 24 of an empty ring at 2^31-8: padding slot [24,32) + record [0,16); producer index 16 <=
+// consumer index 24; survivor of 0 bytes at [16,24).  write = 7 accesses
+// @verif tier=quick fs=801 unwind=4 unwindset=claim:2
+crash_prefix!(c07_crash_wrapped_claim, B2 + 24, -1, 4, 0, [0, 1, 2, 3, 4, 5, 6, 7],
+    [before_claim, zero_len, neg_len, committed, pad_unwritten, pad_written_record_not, survivor_ok]);
+// WRAPPED claim behind an unconsumed record at [16,24): after the claim the ring is full, the survivor is refused
+// @verif tier=quick fs=801 unwind=4 unwindset=claim:2
+crash_prefix!(c07_crash_wrapped_claim_full, B3 + 16, 0, 3, 0, [0, 1, 2, 3, 4, 5, 6, 7],
+    [before_claim, zero_len, neg_len, committed, pad_unwritten, survivor_refused]);
+// claim of a header-only record [8,16) at 2^40 + 8, no survivor
+// @verif tier=quick fs=801 unwind=4 unwindset=claim:2
+crash_prefix!(c07_crash_empty_message, B4 + 8, -1, 0, -1, [0, 1, 2, 3, 4, 5, 6], [before_claim, zero_len, neg_len, committed]);
+
+// ------------------------------------------------------------------------------------------------------------------
+// g.  consumer side: unblock from a ring satisfying dead_claim
+// ------------------------------------------------------------------------------------------------------------------
+
+#[derive(Copy, Clone, Default)]
+pub struct UnblockSeen {
+    pub unblocked_neg: bool,
+    pub unblocked_scan: bool,
+    pub not_unblocked: bool,
+    pub fresh_wrapped: bool,
+}
+
+/// A surviving producer's committed record, written directly: literal place/length/type, symbolic bytes.
+fn put_survivor(m: &mut Ring, idx: usize, len: i32, cmd: AeronCommand) -> Cmd {
+    let bytes: [u8; 8] = kani::any();
+    m.set_i32(idx, len + 8);
+    m.set_i32(idx + 4, cmd as i32);
+    // alignment slack behind the message is zero, as consumed space is returned zeroed
+    let mask: u64 = if len >= 8 { !0 } else { (1u64 << (8 * len as u32)) - 1 };
+    let word = u64::from_le_bytes(bytes) & mask;
+    if len > 0 {
+        m.set_i64(idx + 8, word as i64);
+    }
+    Cmd { id: cmd as i32, len, bytes: word.to_le_bytes() }
+}
+
+/// Ring satisfying `dead_claim`: consumer at `head`, producer at `tail`, dead claim of `alen` bytes at the consumer
+/// index with length word `lw` (0: whole claim zero; negative: type word set, message area arbitrary), survivors
+/// (index, length) x2 (length -1 = none).  Then unblock, read, drain, fresh write, drain.
+fn unblock_from(lw: i32, head: i64, tail: i64, alen: usize, s0: (usize, i32), s1: (usize, i32), seen: &mut UnblockSeen) {
+    let m = ring_mem();
+    set_positions(m, head, tail, head);
+    let ci = (head as i128 % CAP as i128) as usize;
+    if lw != 0 {
+        m.set_i32(ci, lw);
+        m.set_i32(ci + 4, CMD_A as i32);
+        if alen > 8 {
+            m.set_i64(ci + 8, kani::any()); // partially copied message: arbitrary
+        }
+    }
+    let mut surv = [NO_CMD; 4];
+    let mut ns = 0usize;
+    if s0.1 >= 0 {
+        surv[ns] = put_survivor(m, s0.0, s0.1, TYPES[0]);
+        ns += 1;
+    }
+    if s1.1 >= 0 {
+        surv[ns] = put_survivor(m, s1.0, s1.1, TYPES[1]);
+        ns += 1;
+    }
+    let rb = ring();
+    let p: usize = kani::any();
+    kani::assume(p >= CAP && p < N);
+    let before_p = m.byte(p);
+    let q: usize = kani::any();
+    kani::assume(q < CAP);
+    let before_q = m.byte(q);
+
+    let u = rb.unblock();
+
+    assert!(m.byte(p) == before_p, "C07: unblock changed the trailer");
+    assert!(m.i64_at(HEAD_AT) == head && m.i64_at(TAIL_AT) == tail, "C07: unblock moves neither position");
+    let in_hdr = q >= ci && q < ci + 8;
+    assert!(in_hdr || m.byte(q) == before_q, "C07: unblock touches nothing but the header at the consumer position: committed commands stay intact");
+    let w0 = m.i32_at(ci);
+    let t0 = m.i32_at(ci + 4);
+    if u {
+        assert!(t0 == -1 && w0 > 0, "C07: unblock reports success only after turning the dead claim into a padding record");
+        let end = ci as i64 + align8(w0 as i64);
+        assert!(end <= CAP as i64, "C07: the padding record stored by unblock must lie inside the data area (consumer index + length <= capacity)");
+        kani::assume(end <= CAP as i64);
+        assert!(end == (ci + alen) as i64, "C07: the padding record ends at the record boundary where the dead claim ends");
+        if lw < 0 {
+            seen.unblocked_neg = true;
+        } else {
+            seen.unblocked_scan = true;
+        }
+    } else {
+        assert!(m.byte(q) == before_q, "C07: unblock that reports failure leaves the ring alone");
+        seen.not_unblocked = true;
+    }
+    // the next read
+    let mut log = EMPTY_LOG;
+    let c1 = rb.read(|t, b| log_push(&mut log, t, b), i32::MAX);
+    let h1 = m.i64_at(HEAD_AT);
+    assert!(h1 <= tail, "C07: the consumer position passed the producer position");
+    if u {
+        assert!(h1 > head, "C07: after unblock reports success the next read makes progress");
+    } else {
+        assert!(h1 == head && c1 == 0, "C07: a ring still blocked by a claim hands out nothing and stays put");
+    }
+    drain(&rb, &mut log);
+    let h2 = m.i64_at(HEAD_AT);
+    assert!(h2 <= tail, "C07: the consumer position passed the producer position");
+    assert!(!log.overflow, "C07: a command was handed out more than once");
+    if u {
+        assert!(log.n == ns, "C07: every command committed by a surviving producer is handed out exactly once");
+        let mut i = 0;
+        while i < 2 {
+            if i < ns {
+                assert!(delivered_is(&log, i, &surv[i]), "C07: surviving producers' commands come out intact, in order");
+            }
+            i += 1;
+        }
+        assert!(h2 == tail, "C07: after unblock the ring drains completely");
+        // afterwards the ring works normally
+        let mut src = Mem::<8>::any();
+        vok!(rb.write(TYPES[3], src.buf(), 0, 2), "C07: after unblock and drain the ring accepts a new command");
+        let fresh = Cmd { id: TYPES[3] as i32, len: 2, bytes: src.0 };
+        let spf = spec_place(tail, tail, 2);
+        assert!(m.i64_at(TAIL_AT) == spf.new_tail && placed(m, &spf, 2, TYPES[3] as i32, &src.0), "C07: the new command is placed by the rule");
+        if spf.padding != 0 {
+            seen.fresh_wrapped = true;
+        }
+        drain(&rb, &mut log);
+        assert!(!log.overflow && log.n == ns + 1 && delivered_is(&log, ns, &fresh), "C07: the new command is delivered exactly once, intact");
+        assert!(m.i64_at(HEAD_AT) == spf.new_tail, "C07: the ring drains completely again");
+        let z: usize = kani::any();
+        kani::assume(z < CAP);
+        assert!(m.byte(z) == 0, "C07: consumed space, including the former dead claim, is returned zeroed");
+    } else {
+        assert!(log.n == 0, "C07: nothing behind a still-blocking claim is handed out");
+        assert!(in_hdr || m.byte(q) == before_q, "C07: commands behind a still-blocking claim stay intact in the ring");
+    }
+}
+
+macro_rules! unblock_cover {
+    ($seen:ident, unblocked_neg) => { kani::cover!($seen.unblocked_neg, "[must] unblock true path: negative length word turned into padding"); };
+    ($seen:ident, unblocked_scan) => { kani::cover!($seen.unblocked_scan, "[must] unblock true path: zeroed claim bridged up to the next record"); };
+    ($seen:ident, not_unblocked) => { kani::cover!($seen.not_unblocked, "[must] unblock false path"); };
+    ($seen:ident, fresh_wrapped) => { kani::cover!($seen.fresh_wrapped, "[must] the fresh command wrapped"); };
+}
+
+macro_rules! unblock_step {
+    ($name:ident, $head:expr, $used:expr, $alen:expr, $s0:expr, $s1:expr, [$($lw:expr),+], [$($kind:ident),*]) => {
+        #[kani::proof]
+        fn $name() {
+            let mut seen = UnblockSeen::default();
+            let lw: i32 = kani::any();
+            split!(lw, |v| unblock_from(v, $head, $head + $used, $alen, $s0, $s1, &mut seen), $($lw),+);
+            $( unblock_cover!(seen, $kind); )*
+        }
+    };
+}
+
+const NONE: (usize, i32) = (0, -1);
+
+// dead claim [0,16) (4-byte message) at the consumer, survivor (3 bytes) at [16,32): ring full, producer index ==
+// consumer index
+// @verif tier=quick fs=801 unwind=4 unwindset=claim:2,RingBuffer4read:6,set_memory:33,unblock:100,scan_back:100
+unblock_step!(c07_unblock_plain_survivor, B1, 32, 16, (16, 3), NONE, [0, -12], [unblocked_neg, unblocked_scan]);
+// dead claim [8,24) (2-byte message), nobody behind it: a zero length word cannot be told from a slow producer
+// @verif tier=quick fs=801 unwind=4 unwindset=claim:2,RingBuffer4read:6,set_memory:33,unblock:100,scan_back:100
+unblock_step!(c07_unblock_plain_alone, B1 + 8, 16, 16, NONE, NONE, [0, -10], [unblocked_neg, not_unblocked, fresh_wrapped]);
+// WRAPPED: dead claim [16,32) reaches the end of the data area, the survivor's record (0 bytes) sits at [0,8) of the
+// next lap: producer index 8 < consumer index 16, zeros from the consumer index to the end of the data area
+// @verif tier=quick fs=801 unwind=4 unwindset=claim:2,RingBuffer4read:6,set_memory:33,unblock:100,scan_back:100
+unblock_step!(c07_unblock_wrapped_claim_at_end, B3 + 16, 24, 16, (0, 0), NONE, [0, -12], [unblocked_neg, not_unblocked]);
+// WRAPPED: the dying producer claimed padding slot [24,32) + record [0,16) and wrote nothing; a survivor (0 bytes)
+// committed [16,24): ring full, producer index 24 == consumer index 24, everything from the consumer index to the end
+// of the data area and the claim at [0,16) is zero
+// @verif tier=quick fs=801 unwind=4 unwindset=claim:2,RingBuffer4read:6,set_memory:33,unblock:100,scan_back:100
+unblock_step!(c07_unblock_wrapped_padding_slot, B1 + 24, 32, 8, (16, 0), NONE, [0], [not_unblocked]);
+// same dead claim without survivor: producer index 16 < consumer index 24
+// @verif tier=quick fs=801 unwind=4 unwindset=claim:2,RingBuffer4read:6,set_memory:33,unblock:100,scan_back:100
+unblock_step!(c07_unblock_wrapped_padding_slot_alone, B2 + 24, 24, 8, NONE, NONE, [0], [not_unblocked]);
+// the wrap padding record was written (and consumed), the record part [0,16) is dead; two survivors behind it
+// @verif tier=quick fs=801 unwind=4 unwindset=claim:2,RingBuffer4read:6,set_memory:33,unblock:100,scan_back:100
+unblock_step!(c07_unblock_two_survivors, B3 + 32, 32, 16, (16, 0), (24, 0), [0, -9], [unblocked_neg, unblocked_scan]);
+
+/// Vacuity witness: the family must be able to fail — "unblock never reports success" is false.
+// @verif tier=quick twin=1 fs=801 unwind=4 unwindset=claim:2,RingBuffer4read:6,set_memory:33,unblock:100,scan_back:100
+#[kani::proof]
+fn c07_twin_unblock_reports_success() {
+    let mut seen = UnblockSeen::default();
+    unblock_from(-12, B1, B1 + 32, 16, (16, 3), NONE, &mut seen);
+    assert!(!seen.unblocked_neg, "C07: TWIN unblock never reports success");
+}
